@@ -350,6 +350,17 @@ type vgNonEmptyCap struct {
 
 func VH_C01_NonEmptyCap() { vhC01[vgNonEmptyCap](vhNoElide) }
 
+// captures that can succeed without matching anything: the field keeps its zero value
+type vgEmptyCaptures struct {
+	P bool     `@( A? )`
+	Q bool     `@( C* )`
+	S string   `@( A? )`
+	L []string `@( C* )`
+	N string   `@B`
+}
+
+func VH_C01_EmptyCaptures() { vhC01[vgEmptyCaptures](vhNoElide) }
+
 func VH_C02_Canary() { VH_C01_Canary() }
 
 func VH_C06_Seq()      { vhC06[vgSeq](vhNoElide) }
@@ -374,6 +385,19 @@ type vgNumeric struct {
 }
 
 func VH_C06_Numeric() { vhC06[vgNumeric](vhNoElide) }
+
+// a conversion that fails in a production that then also fails syntactically
+type vgNumericSub struct {
+	N int8   `@A`
+	T string `@B`
+	U string `@C`
+}
+type vgNumericSeq struct {
+	Subs []*vgNumericSub `@@*`
+	Tail string          `@A?`
+}
+
+func VH_C06_NumericSeq() { vhC06[vgNumericSeq](vhNoElide) }
 
 func VH_C06_Canary() { VH_C01_Canary() }
 
